@@ -2,6 +2,7 @@ package props
 
 import (
 	"fmt"
+	"io"
 	"sync"
 
 	cose "github.com/veraison/go-cose"
@@ -337,4 +338,24 @@ func reenterLibrary() {
 	if cs.Sign(rnd, &bridge.SpySigner{Alg: cose.AlgorithmEdDSA}, sm, pad) == nil {
 		_ = cs.Verify(&bridge.SpyVerifier{Alg: cose.AlgorithmEdDSA}, sm, pad)
 	}
+}
+
+// reentrantSigner / reentrantVerifier wrap a real signer / verifier the way a
+// key that itself uses the library (or that simply takes long while other
+// callers use the library) behaves: other library operations run between the
+// moment the key is handed its bytes and the moment it reads them. The bytes a
+// key is handed belong to that call, so the outcome must be the same as without
+// the nested operations.
+type reentrantSigner struct{ cose.Signer }
+
+func (r reentrantSigner) Sign(rand io.Reader, content []byte) ([]byte, error) {
+	reenterLibrary()
+	return r.Signer.Sign(rand, content)
+}
+
+type reentrantVerifier struct{ cose.Verifier }
+
+func (r reentrantVerifier) Verify(content, sig []byte) error {
+	reenterLibrary()
+	return r.Verifier.Verify(content, sig)
 }
